@@ -95,6 +95,28 @@ def rule_layout(repo, rid, entries, floor):
     return res
 
 
+CTORS = {'torch.zeros', 'torch.ones', 'torch.eye', 'torch.tensor', 'torch.empty', 'torch.full', 'torch.arange', 'torch.rand', 'torch.randn',
+         'torch.linspace'}
+
+
+def rule_dtype(repo, rid, targets, floor):
+    """every tensor constructed in the target functions takes dtype and device from an input tensor"""
+    res = RuleResult(rid, 'every tensor constructed in these functions takes both dtype and device from an input tensor (or is a *_like): the '
+                     'accuracy promised for float64 is not silently reduced to the float32 default', floor=floor)
+    for mod, q in targets:
+        f = repo.func(mod, q)
+        n_sites = 0
+        for n in ast.walk(f.node):
+            if isinstance(n, ast.Call) and dotted(n.func) in CTORS:
+                n_sites += 1
+                kws = {k.arg for k in n.keywords}
+                if not ({'dtype', 'device'} <= kws) and not any(k.arg is None for k in n.keywords):
+                    missing = [k for k in ('dtype', 'device') if k not in kws]
+                    res.add(Finding(rid, f, 'tensor constructor `%s` does not take its %s from an input tensor' % (src(n)[:60], ' and '.join(missing)), node=n))
+        res.inst({'function': f.fq, 'constructor_sites': n_sites}, f.fq)
+    return res
+
+
 def type_method(repo, cname, mname):
     return repo.func(LT, '%sType.%s' % (cname, mname))
 
